@@ -84,6 +84,64 @@ func checkC14(c *core.Ctx) {
 	r2 := c.Rule("R14.2", "D", "block/record fields: writer and reader offsets and widths agree; total length written twice")
 	r3 := c.Rule("R14.3", "T", "EOF only at a block boundary; mid-block EOF becomes ErrUnexpectedEOF")
 	r4 := c.Rule("R14.4", "T", "no dropped stream error (nothing is returned after a failed read)")
+	r7 := c.Rule("R14.7", "T", "the classic pcap file header stores the caller's snaplen and link type unmodified (the reader rejects records longer than the stored snaplen, the writer accepts any)")
+	if wf := p.Func("pcapgo", "Writer.WriteFileHeader"); wf == nil {
+		r7.Missing("pcapgo.Writer.WriteFileHeader", "not found")
+	} else {
+		n := 0
+		core.Instrs(wf, func(ins ssa.Instruction) {
+			call, ok := ins.(*ssa.Call)
+			if !ok {
+				return
+			}
+			_, w, put, ok := binaryOrder(call)
+			if !ok || !put || w != 4 || len(call.Call.Args) != 3 {
+				return
+			}
+			v := call.Call.Args[2]
+			// does the value depend on a parameter at all?
+			var dep *ssa.Parameter
+			var walk func(x ssa.Value, d int)
+			walk = func(x ssa.Value, d int) {
+				if d > 8 || dep != nil {
+					return
+				}
+				switch y := x.(type) {
+				case *ssa.Parameter:
+					if y != wf.Params[0] {
+						dep = y
+					}
+				case *ssa.Convert:
+					walk(y.X, d+1)
+				case *ssa.ChangeType:
+					walk(y.X, d+1)
+				case *ssa.BinOp:
+					walk(y.X, d+1)
+					walk(y.Y, d+1)
+				case *ssa.Phi:
+					for _, e := range y.Edges {
+						walk(e, d+1)
+					}
+				case *ssa.Call:
+					for _, a := range y.Call.Args {
+						walk(a, d+1)
+					}
+				}
+			}
+			walk(v, 0)
+			if dep == nil {
+				return
+			}
+			n++
+			key := "pcapgo.(*Writer).WriteFileHeader/stores:" + dep.Name()
+			r7.Check(core.StripConv(v) == ssa.Value(dep), key, p.InstrPos(ins), dep.Name()+" is written as passed", "the value written for "+dep.Name()+" is computed from the parameter instead of being the parameter: a file written with a value the computation changes is rejected (or read with other lengths) by the reader")
+		})
+		if n < 2 {
+			r7.Missing("pcapgo.(*Writer).WriteFileHeader/params", fmt.Sprintf("only %d header fields written from parameters", n))
+		}
+	}
+	r6 := c.Rule("R14.6", "T", "segment order of a pcapng packet block (header, data, padding, options, trailer) is the same in the writer and the reader")
+	segmentOrder(c, r6)
 	r5 := c.Rule("R14.5", "D", "padding is (4 - len mod 4) mod 4 on both sides, for all four residues")
 
 	// ---- R14.1
